@@ -99,7 +99,7 @@ def metaRunBfgs (I : FunI F α) (fuel : Nat) (s : St F (Meta α) α) (tol : α) 
           .ok { s with fn := sub.fn, core := { s.core with params := own, nbEval := s.core.nbEval + sub.core.nbEval },
                        ext := { s.ext with p2 := p2, c2 := sub.core, e2 := sub.ext } }
 
-/-- `MetaOptimizer::doStep` (MetaOptimizer.cpp:121-176) -/
+/-- `MetaOptimizer::doStep` (MetaOptimizer.cpp:121-181) -/
 def metaDoStep (I : FunI F α) (fuel : Nat) (s : St F (Meta α) α) : Except (Exc × F) (St F (Meta α) α × α) :=
   let sc := s.ext.stepCount + 1
   let s := { s with ext := { s.ext with stepCount := sc } }
@@ -114,7 +114,8 @@ def metaDoStep (I : FunI F α) (fuel : Nat) (s : St F (Meta α) α) : Except (Ex
     | .error e => .error e
     | .ok s =>
       let tolTest := (if s.ext.p1.length > 0 then 1 else 0) + (if s.ext.p2.length > 0 then 1 else 0)
-      .ok ({ s with core := { s.core with tol := decide (tolTest = 1) } }, I.value s.fn)
+      -- (repaired) a single active optimiser ends the run only when it is iterated in `full` mode
+      .ok ({ s with core := { s.core with tol := decide (tolTest = 1) && s.ext.full } }, I.value s.fn)
 
 def metaAlgo (I : FunI F α) (log10 : α → α) (fuel : Nat) : Algo F (Meta α) α :=
   { doInit := metaDoInit I log10,
